@@ -2144,6 +2144,9 @@ class TestGraph(object):
                 test_duration = next.params.get_numeric("test_timeout", 3600) * max(
                     next.params.get_numeric("max_tries", 1), 1
                 )
+                if next.is_object_root():
+                    # each try at creating an object consists of two consecutive test runs
+                    test_duration *= 2
                 occupied_timeout = round(max(test_duration / 1000, 0.1), 2)
                 # despite ergodicity we ended at the same node (no other work)
                 if next in occupied_at:
